@@ -42,6 +42,9 @@ def case(name, build, sources, nodes, elements, props=('C10', 'C03')):
             dc = build.circuit(vals, {s: 1 for s in sources}, 0)
             ssm = f(dc, potential_nodes=list(nodes), voltage_ids=list(elements), current_ids=list(elements))
             order = published_sources(dc)
+            dc0 = build.circuit(vals, {s: 0 for s in sources}, 0)          # the same circuit with every source switched to zero
+            ssm0 = f(dc0, potential_nodes=list(nodes), voltage_ids=list(elements), current_ids=list(elements))
+            order0 = published_sources(dc0)
             ref = {}
             for s in sources:
                 amps = {k: (1 if k == s else 0) for k in sources}
@@ -50,14 +53,17 @@ def case(name, build, sources, nodes, elements, props=('C10', 'C03')):
             for s in sources:
                 amps = {k: (1 if k == s else 0) for k in sources}
                 dcs[s] = DCSolution(build.circuit(vals, amps, 0))
-            return (ssm, order, ref, dcs)
+            return (ssm, order, ref, dcs, ssm0, order0)
 
         def ensures(result, vals, w):
-            ssm, order, ref, dcs = result
+            ssm, order, ref, dcs, ssm0, order0 = result
             H = transfer(ssm, w)
             H0 = transfer(ssm, 0)
             out = {'state dimension = capacitors + inductors': ssm.A.shape[0] == build.n_states,
-                   'published sources': sorted(order) == sorted(sources) and ssm.B.shape[1] == len(sources)}
+                   'published sources': sorted(order) == sorted(sources) and ssm.B.shape[1] == len(sources),
+                   'with every source set to zero the published input list still matches the input columns (same A; each remaining input keeps its column)':
+                       len(order0) == ssm0.B.shape[1] and len(order0) == ssm0.D.shape[1] and all([s in order for s in order0]) and eq(ssm0.A, ssm.A)
+                       and all([eq(ssm0.B[:, j], ssm.B[:, order.index(s)]) and eq(ssm0.D[:, j], ssm.D[:, order.index(s)]) for j, s in enumerate(order0)])}
             for j, s in enumerate(order):
                 for r, n in enumerate(nodes):
                     out['potential ' + n + ' <- ' + s] = eq(H[r, j], ref[s].get_potential(n))
